@@ -4,6 +4,7 @@ package main
 
 import (
 	"net"
+	"net/url"
 	"sync"
 
 	pt "gitlab.torproject.org/tpo/anti-censorship/pluggable-transports/goptlib"
@@ -27,6 +28,10 @@ func verifEnsureTermMon() {
 }
 
 func verifClientHandler(f base.ClientFactory, conn net.Conn) { clientHandler(f, conn, nil) }
+
+func verifClientHandlerVia(f base.ClientFactory, conn net.Conn, proxyURI *url.URL) {
+	clientHandler(f, conn, proxyURI)
+}
 
 func verifServerHandler(f base.ServerFactory, conn net.Conn, info *pt.ServerInfo) {
 	serverHandler(f, conn, info)
